@@ -9,8 +9,9 @@
 (*          "test" (the storage that `apply` attaches to a test function)  *)
 (*      f = "register"  @storage.register().<chain>   class Provider       *)
 (*          "call"      @storage().<chain>            class Provider       *)
-(*          "keyed"     @storage(cache_by_key=f).<chain>   (cached per key)*)
-(*          "nocache"   @storage(refresh_interval=None).<chain>            *)
+(*      k = caching option passed to register / __call__ / apply:          *)
+(*          refresh_interval default | number | None, with / without       *)
+(*          cache_by_key ("-" for set_from_requests, which has none)       *)
 (*          "requests"  storage.set_from_requests(auth).<chain>            *)
 (*          "apply"     @schema.auth(Provider).<chain> on the test         *)
 (*      c = the chain written in that registration ("-" = none)            *)
@@ -32,10 +33,17 @@ CONSTANTS MaxAuth,     \* maximal number of provider registrations
 
 AScopes == {"global", "schema", "test"}
 AForms(s) == IF s = "test" THEN {"apply"}
-             ELSE IF Rich THEN {"register", "call", "keyed", "nocache", "requests"} ELSE {"call", "keyed", "requests"}
-AChains == IF Rich THEN ChainIds ELSE {"C2", "C3"}
-ARegEvent(s, f, c) == [ev |-> "areg", s |-> s, f |-> f, c |-> c]
-AUnregEvent(s)     == [ev |-> "aunreg", s |-> s, f |-> "-", c |-> "-"]
+             ELSE IF Rich THEN {"register", "call", "requests"} ELSE {"call", "requests"}
+AChains == IF Rich THEN ChainIds ELSE {"C1", "C2", "C3"}
+(* caching options of a provider-class registration: refresh_interval default / a number / None, with or without cache_by_key. *)
+(* They decide how auth data is cached, never where the provider applies.  The first registration of a history takes every   *)
+(* option, a later one the option that follows its predecessor's in the cycle (all pairs of options with every form, scope   *)
+(* and filter chain are covered without multiplying the family); thorough (Rich) lets every registration take every option.  *)
+CacheOpts == <<"default", "number", "none", "keyed", "keyed_number", "keyed_none">>
+CacheSet == {CacheOpts[j] : j \in 1..Len(CacheOpts)}
+NextOpt(k) == LET j == CHOOSE x \in 1..Len(CacheOpts) : CacheOpts[x] = k IN CacheOpts[(j % Len(CacheOpts)) + 1]
+ARegEvent(s, f, c, k) == [ev |-> "areg", s |-> s, f |-> f, c |-> c, k |-> k]
+AUnregEvent(s)        == [ev |-> "aunreg", s |-> s, f |-> "-", c |-> "-", k |-> "-"]
 
 ASelTable == [c \in ChainIds \cup {"-"} |-> [o \in 1..NOps |-> Selected(Ops[o], FilterSetOf(c))]]
 ARegPositions(hs) == {k \in 1..Len(hs) : hs[k].ev = "areg"}
@@ -58,11 +66,17 @@ VARIABLES ahist, providers,    \* providers: scope -> sequence of provider ids
 avars == <<ahist, providers, aorder>>
 anreg == ANRegs(ahist)
 AInit == ahist = << >> /\ providers = [s \in AScopes |-> << >>] /\ aorder \in {"AB", "BA"}
-AuthRegister(s, f, c) ==
+LastOpt == LET ks == {j \in 1..Len(ahist) : ahist[j].ev = "areg" /\ ahist[j].k # "-"} IN
+           IF ks = {} THEN "-" ELSE ahist[CHOOSE j \in ks : \A i \in ks : i <= j].k
+AuthRegister(s, f, c, k) ==
   /\ anreg < MaxAuth /\ Len(ahist) < MaxLen
   /\ f \in AForms(s)
+  /\ f = "requests" <=> k = "-"
+  /\ (k # "-" /\ LastOpt # "-" /\ ~Rich) => k = NextOpt(LastOpt)
+  /\ (k # "-" /\ LastOpt = "-" /\ ~Rich) =>      \* ... and the schema order alternates with the option (both orders for every scope, form, chain)
+        aorder = (IF (CHOOSE x \in 1..Len(CacheOpts) : CacheOpts[x] = k) % 2 = 1 THEN "AB" ELSE "BA")
   /\ s = "test" => providers["test"] = << >>        \* `apply` can decorate a test function once
-  /\ ahist' = Append(ahist, ARegEvent(s, f, c))
+  /\ ahist' = Append(ahist, ARegEvent(s, f, c, k))
   /\ providers' = [providers EXCEPT ![s] = Append(@, anreg + 1)]
   /\ UNCHANGED aorder
 AuthUnregister(s) ==
@@ -71,7 +85,8 @@ AuthUnregister(s) ==
   /\ ahist' = Append(ahist, AUnregEvent(s))
   /\ providers' = [providers EXCEPT ![s] = << >>]
   /\ UNCHANGED aorder
-ANext == \/ \E s \in AScopes, f \in {"register", "call", "keyed", "nocache", "requests", "apply"}, c \in AChains \cup {"-"} : AuthRegister(s, f, c)
+ANext == \/ \E s \in AScopes, f \in {"register", "call", "requests", "apply"}, c \in AChains \cup {"-"}, k \in CacheSet \cup {"-"} :
+               AuthRegister(s, f, c, k)
          \/ \E s \in AScopes : AuthUnregister(s)
 ASpec == AInit /\ [][ANext]_avars
 
@@ -81,6 +96,9 @@ ATypeOK == Len(ahist) <= MaxLen /\ anreg <= MaxAuth
 AStateAgrees == \A p \in 1..anreg : ALive(ahist, p) = \E s \in AScopes : AInList(s, p)
 AUnfilteredEverywhere == \A p \in 1..anreg : (ahist[APosOf(ahist, p)].c = "-" /\ ALive(ahist, p)) =>
                             \A o \in 1..NOps : ACovers(ahist[APosOf(ahist, p)].s, o) => May(ahist, p, o)
+(* the caching option never changes where a provider applies *)
+CacheIrrelevant == \A p \in 1..anreg : \A o \in 1..NOps :
+                     May(ahist, p, o) = May([j \in 1..Len(ahist) |-> [ahist[j] EXCEPT !.k = "-"]], p, o)
 ANoneMeansNoMay == \A o \in 1..NOps : Must(ahist, o) = "none" <=> \A p \in 1..anreg : ~May(ahist, p, o)
 
 Bit(b) == IF b THEN 1 ELSE 0
